@@ -198,6 +198,16 @@ func genC27Small(g *Gen) {
 		g.Op("cu", "varint %s 0", Hex(b))
 		g.Op("cu", "bytes %s 0", Hex(b))
 	}
+	// counts exactly at their declared maximum (wire value = count for `count`, count+1 for `slicecount`)
+	for _, mx := range []int{0, 1, 16, 256, 4 << 20} {
+		for d := -1; d <= 2; d++ {
+			if v := mx + d; v >= 0 {
+				g.Count("cu:boundary")
+				g.Op("cu", "count %s %d", Hex(c27Uvarint(uint64(v))), mx)
+				g.Op("cu", "slicecount %s %d", Hex(c27Uvarint(uint64(v))), mx)
+			}
+		}
+	}
 	for i := 0; i < n; i++ {
 		switch g.R.Pick(2, 2, 3, 4, 1, 2, 2, 5, 1) {
 		case 0:
